@@ -731,6 +731,18 @@ fn dns_strategy() -> BoxedStrategy<DnsScenario> {
         .boxed()
 }
 
+/// Clamp a structurally decoded scenario into the generator's domain (fuzz tier).
+pub fn fuzz_sanitize(sc: &mut PortScenario) -> bool {
+    sc.range_len = 3 + sc.range_len % 6;
+    let r = sc.range_len as i16;
+    for o in sc.ops.iter_mut() {
+        if let Op::BindUdp(PortSel::Off(x)) | Op::BindTcp(PortSel::Off(x)) = o {
+            *x = -2 + x.rem_euclid(r + 4);
+        }
+    }
+    sc.ops.len() >= 2
+}
+
 fn check(tier: Tier, seed: u64) -> i32 {
     let ctx = Ctx::new("C15", tier, seed, "exploration");
     ctx.replay_corpus(&replay);
